@@ -128,6 +128,11 @@ func c05preserved(b, a *c05view, nsup *int64) (string, string) {
 		if x.N == 1 && y.N == 1 && x.HasLen && !y.HasLen {
 			return "lengths", fmt.Sprintf("untouched branch %s|rest lost its length %v", c05side(k, b.names), x.Len)
 		}
+		// two root branches merged into one: a length that was written (0 included) is still written; only a branch CUT by the
+		// new root (y.N == 2) falls under "absent counts as 0" (the code writes no length on the halves of a zero-length branch)
+		if x.N == 2 && y.N == 1 && x.HasLen && !y.HasLen {
+			return "lengths/merged-root-branches", fmt.Sprintf("split %s|rest: the two root branches carried the length %v, the branch that replaces them has none", c05side(k, b.names), x.Len)
+		}
 	}
 	for i := range b.d {
 		for j := range b.d[i] {
